@@ -803,25 +803,42 @@ pre_blkw!(c01_pre_blkw_hex0, LiteralKind::Hex(0), 0usize);
 pre_blkw!(c01_pre_blkw_hex2, LiteralKind::Hex(2), 2usize);
 pre_blkw!(c01_pre_blkw_dec3, LiteralKind::Dec(3), 3usize);
 
-/// `.stringz "a\n"`: code points of the unescaped text, then a zero word
-pre_attrs! { fn c01_pre_stringz() {
-    const SRC1: &str = ".stringz \"a\\n\""; // .stringz "a\n"  (escape sequence: backslash n)
-    queue([Some(Token::new(TokenKind::Dir(DirKind::Stringz), span_of(0, 8))), Some(Token::new(TokenKind::Lit(LiteralKind::Str), span_of(9, 5))), None, None]);
-    match preprocess(SRC1) {
-        Ok(toks) => {
-            assert!(toks.len() == 3, ".stringz does not expand to its characters plus a terminator");
-            assert!(toks[0].kind == TokenKind::Byte('a' as u16) && toks[1].kind == TokenKind::Byte(10) && toks[2].kind == TokenKind::Byte(0),
-                ".stringz words are not the unescaped code points followed by zero");
-            assert!(toks[0].span.offs() == 0 && toks[0].span.end() == 14);
-            kani::cover!(true);
-            core::mem::forget(toks);
-        }
-        Err(e) => {
-            core::mem::forget(e);
-            assert!(false, ".stringz with a string rejected");
-        }
-    }
-}}
+/// `.stringz`: code points of the unescaped text (characters, not bytes), then a zero word.  One harness per
+/// literal: plain escape, an escaped backslash followed by `n`, a 2-byte character, a 2-byte character before an escape.
+macro_rules! pre_stringz {
+    ($name:ident, $src:expr, $strlen:expr, $want:expr) => {
+        pre_attrs! { fn $name() {
+            const SRC1: &str = $src;
+            queue([Some(Token::new(TokenKind::Dir(DirKind::Stringz), span_of(0, 8))), Some(Token::new(TokenKind::Lit(LiteralKind::Str), span_of(9, $strlen))), None, None]);
+            let want: &[u16] = $want;
+            match preprocess(SRC1) {
+                Ok(toks) => {
+                    assert!(toks.len() == want.len(), ".stringz does not expand to its characters plus a terminator");
+                    let mut i = 0;
+                    while i < want.len() {
+                        assert!(toks[i].kind == TokenKind::Byte(want[i]), ".stringz words are not the unescaped code points followed by zero");
+                        i += 1;
+                    }
+                    assert!(toks[0].span.offs() == 0 && toks[0].span.end() == 9 + $strlen);
+                    kani::cover!(true);
+                    core::mem::forget(toks);
+                }
+                Err(e) => {
+                    core::mem::forget(e);
+                    assert!(false, ".stringz with a string rejected");
+                }
+            }
+        }}
+    };
+}
+// .stringz "a\n"      -> a, LF, 0
+pre_stringz!(c01_pre_stringz, ".stringz \"a\\n\"", 5, &[0x61, 10, 0]);
+// .stringz "\\n"     -> backslash, n, 0   (an escaped backslash followed by the letter n)
+pre_stringz!(c01_pre_stringz_backslash_n, ".stringz \"\\\\n\"", 5, &[0x5C, 0x6E, 0]);
+// .stringz "é"        -> U+00E9, 0   (one word per character, not per byte)
+pre_stringz!(c01_pre_stringz_nonascii, ".stringz \"\u{e9}\"", 4, &[0xE9, 0]);
+// .stringz "é\n"     -> U+00E9, LF, 0  (multi-byte character before the first escape)
+pre_stringz!(c01_pre_stringz_nonascii_escape, ".stringz \"\u{e9}\\n\"", 6, &[0xE9, 10, 0]);
 
 /// a data directive followed by a token that is not its operand (any kind), or by nothing: a diagnostic, no panic
 pre_attrs! { fn c05_pre_directive_wrong_operand() {
@@ -831,10 +848,12 @@ pre_attrs! { fn c05_pre_directive_wrong_operand() {
     let t = any_token(8);
     kani::assume(!matches!(t.kind, TokenKind::Lit(_)));
     let none: bool = kani::any();
-    queue([Some(Token::new(TokenKind::Dir(d), span_of(0, 5))), if none { None } else { Some(t) }, None, None]);
+    let doff: usize = kani::any();
+    kani::assume(doff <= 3);
+    queue([Some(Token::new(TokenKind::Dir(d), span_of(doff, 5))), if none { None } else { Some(t) }, None, None]);
     let r = preprocess("ab cdefg");
     assert!(r.is_err(), "data directive without its operand accepted");
-    kani::cover!(none);
+    kani::cover!(none && doff == 3);
     kani::cover!(matches!(t.kind, TokenKind::Dir(_)) && !none);
     core::mem::forget(r);
 }}
